@@ -65,29 +65,56 @@ def default_payload(k, c):
     return f"tokZ{k}Z w{k % 3}"
 
 
-def path(fid, side, skin):
-    if fid == 0:
-        return "/dev/null"
+def bare_path(fid, skin):
+    """The path as git prints it after the a/ b/ prefix (inside quotes when quoted)."""
     name = FILES[fid]
+    if skin.get("quote"):
+        name = "caf\\303\\251" + name
     if skin.get("dir"):
         name = skin["dir"] + "/" + name
+    return name
+
+
+def path(fid, side, skin, marker_line=False):
+    if fid == 0:
+        return "/dev/null"
+    name = bare_path(fid, skin)
     pre = skin.get("prefixes", ("a/", "b/"))
-    return (pre[0] if side == "a" else pre[1]) + name
+    full = (pre[0] if side == "a" else pre[1]) + name
+    if skin.get("quote"):
+        return '"' + full + '"'
+    if marker_line and " " in full:
+        return full + "\t"      # git appends a TAB on ---/+++ lines when the path contains a space
+    return full
 
 
-def concretise(hist, payload=default_payload, skin=None):
+def plain_path(fid, skin):
+    """rename/copy lines carry the path without prefix (quoted when git quotes)."""
+    name = bare_path(fid, skin)
+    return '"' + name + '"' if skin.get("quote") else name
+
+
+def display_path(fid, skin):
+    """What a faithful header shows for file id: git's path without prefix and surrounding quotes."""
+    return bare_path(fid, skin)
+
+
+def concretise(hist, payload=default_payload, skin=None, k0=0):
     """hist: list of dicts {c,f,g,kd}. Returns (bytes, [text of each line (str, no newline)])."""
     skin = skin or {}
     out = []
     # hunk geometry: start positions and counts are derived from the bodies
     n = len(hist)
+    koff = k0
     for k0, l in enumerate(hist):
-        k = k0 + 1
+        k = k0 + 1 + skin.get("k0", 0) if False else k0 + 1 + koff
         c, f, g = l["c"], l["f"], l["g"]
         if c == "commit":
             t = "commit " + ("%040x" % (0x1234567890abcdef1234567890abcdef12345678 + k))
         elif c == "other":
             t = payload(k, c) if skin.get("other_payload") else f"note tokZ{k}Z"
+            if isinstance(t, bytes):
+                t = t.decode("latin-1")  # raw bytes travel as latin-1 and are re-encoded below
         elif c == "blank":
             t = ""
         elif c == "diff":
@@ -101,13 +128,13 @@ def concretise(hist, payload=default_payload, skin=None):
         elif c == "simil":
             t = "similarity index 90%"
         elif c == "renfrom":
-            t = "rename from " + path(f, "a", skin)[2:]
+            t = "rename from " + plain_path(f, skin)
         elif c == "rento":
-            t = "rename to " + path(f, "b", skin)[2:]
+            t = "rename to " + plain_path(f, skin)
         elif c == "copyfrom":
-            t = "copy from " + path(f, "a", skin)[2:]
+            t = "copy from " + plain_path(f, skin)
         elif c == "copyto":
-            t = "copy to " + path(f, "b", skin)[2:]
+            t = "copy to " + plain_path(f, skin)
         elif c == "oldmode":
             t = "old mode 100644"
         elif c == "newmode":
@@ -115,9 +142,9 @@ def concretise(hist, payload=default_payload, skin=None):
         elif c == "binary":
             t = f"Binary files {path(f, 'a', skin)} and {path(g, 'b', skin)} differ"
         elif c == "mmm":
-            t = "--- " + path(f, "a", skin)
+            t = "--- " + path(f, "a", skin, True)
         elif c == "ppp":
-            t = "+++ " + path(f, "b", skin)
+            t = "+++ " + path(f, "b", skin, True)
         elif c == "hh":
             # count body lines of this hunk
             nm = np_ = 0
@@ -140,7 +167,10 @@ def concretise(hist, payload=default_payload, skin=None):
         else:
             raise ValueError(c)
         out.append(t)
-    data = "".join(t + "\n" for t in out).encode()
+    if skin.get("bytes"):
+        data = b"".join(t.encode("latin-1") + b"\n" for t in out)
+    else:
+        data = "".join(t + "\n" for t in out).encode()
     return data, out
 
 
@@ -176,7 +206,7 @@ def span_kind(fg, bg):
     return "styled"
 
 
-def parse_row(row: bytes, intern):
+def parse_row(row: bytes, intern, skin=None):
     """Mechanical description of one output row under the reserved-style configuration."""
     toks = lexer.tokens(row)
     cs, pen = lexer.cells(toks)
@@ -234,6 +264,19 @@ def parse_row(row: bytes, intern):
     else:
         tag = "styled"
     fs = [int(m) for m in _FILE_RE.findall(text)]
+    # ids whose full display path (per the skin) occurs in the row, in order of appearance
+    fp = []
+    if skin is not None:
+        hits = []
+        for fid in FILES:
+            dp = display_path(fid, skin)
+            pos = text.find(dp)
+            while pos >= 0:
+                hits.append((pos, fid))
+                pos = text.find(dp, pos + 1)
+        fp = [fid for pos, fid in sorted(hits)]
+    else:
+        fp = list(fs)
     lab = _LAB_RE.search(text)
     frag = _FRAG_RE.search(text)
     emph = [1 if kd in ("minusEmph", "plusEmph") else 0 for s, kd in zip(sp, kinds) if kd not in LN_KINDS
@@ -243,6 +286,7 @@ def parse_row(row: bytes, intern):
         "vis": cps(code),
         "bid": intern(row),
         "fs": fs,
+        "fp": fp,
         "lab": _LAB_NAME[lab.group(1)] if lab else "",
         "mode": "mode" in text and tag == "fileHdr",
         "bin": "binary" in text and tag == "fileHdr",
